@@ -533,6 +533,12 @@ func invalidate(t *rapid.T, d *Desc) string {
 		// override the value the file states under the proper name)
 		pick := rapid.SampledFrom([][2]string{{"defaults", "  VELOCITY = 100"}, {"defaults", "  Octave = 3"}, {"defaults", "  Channel = 5"},
 			{"top", "Collision_Mode = \"off\""}, {"identifier", "  BUS = 3"}, {"open_rgb", "  White = 1"}, {"mapping:0", "  NAME = \"other\""}}).Draw(t, "caseVariant")
+		if rapid.IntRange(0, 2).Draw(t, "caseVariantInAxis") == 0 {
+			// ... also inside the table of one axis
+			a := ensureAxis(t, d, rapid.SampledFrom([]string{"cc", "key", "pitch_bend", "action"}).Draw(t, "atype"))
+			a.Extra = rapid.SampledFrom([]string{"Flip_Axis = true", "NOTE = 61", "Cc = 7", "Channel_Offset = 3", "TYPE = \"cc\"", "Deadzone_At_Center = true", "Action_Negative = \"panic\""}).Draw(t, "axisCaseVariant")
+			return kind + ": axis field " + a.Extra
+		}
 		if d.Inject == nil {
 			d.Inject = map[string]string{}
 		}
